@@ -42,17 +42,31 @@ def _cases(draw, max_n=None, max_p=8, containers=("ndarray",)):
     # periods straddling 6*dt: mix of a log-uniform family and a family concentrated around 6
     around6 = st.one_of(gen.log_uniform(2.0, 20.0), st.sampled_from([5.999, 6.0, 6.001, 5.5, 6.5]))
     c["ratios"] = draw(st.lists(st.one_of(gen.log_uniform(0.2, 2e4), around6), min_size=1, max_size=max_p))
+    if draw(st.integers(0, 4)) == 0:
+        # integer-typed periods (python ints / integer ndarray), as the repo's own test passes ([0, 2, 4]): dt chosen so that
+        # T/dt stays inside the quantifier
+        c["dt"] = draw(st.sampled_from([1.0, 0.5, 0.25, 0.1, 0.05]))
+        ints = draw(st.lists(st.integers(1, 60), min_size=1, max_size=max_p))
+        c["int_periods"] = ints
+        c["ratios"] = [t / c["dt"] for t in ints]
     return c
 
 
 def _T(case):
+    if case.get("int_periods"):
+        return np.array([float(t) for t in case["int_periods"]])
     return np.array([float(r) * case["dt"] for r in case["ratios"]])
 
 
 def _periods(case):
-    T = list(_T(case))
-    if case["lead0"]:
-        T = [0.0] + T
+    if case.get("int_periods"):
+        T = [int(t) for t in case["int_periods"]]
+        if case["lead0"]:
+            T = [0] + T
+    else:
+        T = list(_T(case))
+        if case["lead0"]:
+            T = [0.0] + T
     k = case.get("container", "ndarray")
     return np.array(T) if k == "ndarray" else (list(T) if k == "list" else tuple(T))
 
@@ -61,7 +75,8 @@ def _cls(ctx, case, a):
     r = np.array(case["ratios"])
     ctx.cls(gen.size_class(len(a)), "T<6dt" if np.any(r < 6 * (1 - 1e-9)) else None, "T>6dt" if np.any(r > 6 * (1 + 1e-9)) else None,
             "both-sides-of-6dt" if (np.any(r < 5.99) and np.any(r > 6.01)) else None,
-            "lead0" if case["lead0"] else None, "xi=0" if case["xi"] == 0 else None, "periods=" + case.get("container", "ndarray"))
+            "lead0" if case["lead0"] else None, "xi=0" if case["xi"] == 0 else None, "periods=" + case.get("container", "ndarray"),
+            "int-periods" if case.get("int_periods") else None, "int-periods+lead0" if case.get("int_periods") and case["lead0"] else None)
 
 
 def _band(r):
@@ -76,7 +91,7 @@ def _band(r):
              "non-trivial = spectrum not identically zero and periods on both sides of 6*dt",
         oracle="differential: S_d/S_v/S_a(true) == max|.| of response_series rows (exact); reference model: S_d, true S_v vs the "
                "long-double exact series within the C01 bound; true S_a == pseudo S_a at xi=0 (1e-8)",
-        require={"both-sides-of-6dt": 0.25}, min_nontrivial=0.2)
+        require={"both-sides-of-6dt": 0.2}, min_nontrivial=0.15)
 def sd_is_peak(case, ctx):
     a = gen.build(case["rec"])
     dt, xi = case["dt"], case["xi"]
@@ -123,7 +138,7 @@ def sd_is_peak(case, ctx):
         rule="same generator, periods as ndarray/list/tuple; non-trivial = non-zero record with periods on both sides of 6*dt",
         oracle="reference model: S_v == (2pi/T) S_d, S_a == (2pi/T)^2 S_d (1e-12 rel) for T >= 6dt; S_a == max|record| exactly for T < 6dt "
                "and T=0; all outputs finite, >= 0, shape (len(periods),)",
-        require={"both-sides-of-6dt": 0.25, "periods=list": 0.15}, min_nontrivial=0.2)
+        require={"both-sides-of-6dt": 0.2, "periods=list": 0.15, "int-periods+lead0": 0.02}, min_nontrivial=0.15)
 def pseudo_relations(case, ctx):
     a = gen.build(case["rec"])
     dt, xi = case["dt"], case["xi"]
